@@ -76,6 +76,10 @@ def yieldto_cases(draw, ctx):
 
 @st.composite
 def cases(draw, ctx):
+    if ctx.get("variant") == "resumerace":
+        # suspended ULTs resumed from other threads while their stream is being joined
+        from gen import c11
+        return draw(c11.race(ctx)) + "note c06-resumerace\n"
     if ctx.get("variant") == "yieldto":
         return draw(yieldto_cases(ctx))
     return draw(cases_main(ctx))
@@ -237,6 +241,8 @@ def classify(text, res, ctx):
 
 
 def nontrivial(text, res, ctx):
+    if "note c06-resumerace" in text:
+        return stat(res, "resumes") >= 1 and "xs" in text.split("main :")[-1]
     if "note yieldto" in text:
         return stat(res, "directed_switches") >= 1
     return stat(res, "xsjoin_with_pending_units") >= 1
@@ -244,7 +250,8 @@ def nontrivial(text, res, ctx):
 
 PLAN = {
     "quick": [("coarse", 9, 250), ("san", 4, 80), ("native", 2, 150), ("coarse", 2, 200, "yieldto"),
-              ("native", 1, 100, "yieldto")],
+              ("native", 1, 100, "yieldto"), ("coarse", 3, 300, "resumerace")],
     "thorough": [("coarse", 6, 5000), ("fine", 6, 3000), ("san", 2, 1500), ("nopool", 1, 1000),
-                 ("native", 1, 2500), ("coarse", 2, 3000, "yieldto"), ("native", 1, 1000, "yieldto")],
+                 ("native", 1, 2500), ("coarse", 2, 3000, "yieldto"), ("native", 1, 1000, "yieldto"),
+                 ("coarse", 3, 5000, "resumerace")],
 }
